@@ -227,6 +227,11 @@ class SqlalchemyRender:
             col0 = self.to_expression(t.args[0])
             lim_down = self.to_expression(t.args[1])
             lim_up = self.to_expression(t.args[2])
+            # sqlalchemy does not parenthesise an AND / OR used as a limit: x BETWEEN (a AND b) AND c became x BETWEEN a AND b AND c
+            lim_down, lim_up = [
+                i.self_group() if isinstance(i, sa.sql.elements.BooleanClauseList) else i
+                for i in (lim_down, lim_up)
+            ]
 
             col = sa.between(col0, lim_down, lim_up)
         elif isinstance(t, ast.Interval):
